@@ -2038,6 +2038,10 @@ def removeslash(
             if self.request.method in ("GET", "HEAD"):
                 uri = self.request.path.rstrip("/")
                 if uri:  # don't try to redirect '/' to ''
+                    # A Location starting with "//" (or "/\\", which browsers
+                    # treat the same) is protocol-relative: the next segment
+                    # would be taken as a host name (open redirect).
+                    uri = "/" + uri.lstrip("/\\")
                     if self.request.query:
                         uri += "?" + self.request.query
                     self.redirect(uri, permanent=True)
@@ -2065,7 +2069,9 @@ def addslash(
     ) -> Awaitable[None] | None:
         if not self.request.path.endswith("/"):
             if self.request.method in ("GET", "HEAD"):
-                uri = self.request.path + "/"
+                # Collapse leading slashes / backslashes so that the Location
+                # cannot be read as a protocol-relative URL (open redirect).
+                uri = "/" + (self.request.path + "/").lstrip("/\\")
                 if self.request.query:
                     uri += "?" + self.request.query
                 self.redirect(uri, permanent=True)
